@@ -28,7 +28,7 @@ def key_only_compared(outs, ev, ops):
                 bad.append(where)
             return
         if t[0] == "closure":
-            u = ("p", 100, "u")
+            u = T.P(100, "u")
             for (g, k, x) in ev.summarize_closure(t, [u]):
                 for a, _p in g:
                     walk(a, False, "closure guard")
